@@ -189,3 +189,33 @@ def prov_at(func, node_or_expr, expr=None):
     for n in nodes:
         out |= r.provenance(n, expr)
     return out
+
+
+def endtime_accumulators(func):
+    """Loop-carried locals of `func` that take a value derived from an end time inside a loop:
+    [(name, assign stmt, is_running_max)].  A local is loop-carried when it is also defined outside
+    that loop (initialised before it).  `is_running_max` is True when the assignment has the form
+    `L = max(L, ...)` / `np.maximum(L, ...)`."""
+    from .dataflow import Defs, provenance
+    from .pattern import pmatch
+    out = []
+    fnode = func.node
+    defs = Defs(fnode)
+    loops = [n for n in walk_body(fnode) if isinstance(n, (ast.For, ast.While))]
+    for lp in loops:
+        inside = {id(x) for st in lp.body for x in ast.walk(st)}
+        for st in walk_body(lp):
+            if not (isinstance(st, ast.Assign) and len(st.targets) == 1 and isinstance(st.targets[0], ast.Name)):
+                continue
+            if id(st) not in inside:
+                continue
+            L = st.targets[0].id
+            a = provenance(defs, st.value)
+            if not ({"call:endtime", "str:endtime"} & a):
+                continue
+            outside = [x for x in walk_body(fnode) if isinstance(x, ast.Assign) and id(x) not in inside and any(isinstance(t, ast.Name) and t.id == L for t in x.targets)]
+            if not outside:
+                continue
+            ok = any(pmatch(pat, st.value) is not None for pat in (f"max({L}, ___)", f"max(___, {L})", f"np.maximum({L}, ___)", f"np.maximum(___, {L})"))
+            out.append((L, st, ok))
+    return out
